@@ -32,7 +32,8 @@ THEOREMS_BY_PROP = {
             "DepLogic.C15.or_neutral", "DepLogic.C15.singleAnd_pair_distinct", "DepLogic.C15.singleOr_pair_distinct",
             "DepLogic.C15.flatten_pair", "DepLogic.C15.and_single_shape", "DepLogic.C15.or_single_shape",
             "DepLogic.C15.multiOf_flat", "DepLogic.C15.unionOfList_flat", "DepLogic.C15.intersection_flat",
-            "DepLogic.C15.unionOf_flat", "DepLogic.C15.and_flat", "DepLogic.C15.or_flat"]}
+            "DepLogic.C15.unionOf_flat", "DepLogic.C15.and_flat", "DepLogic.C15.or_flat",
+            "DepLogic.C15.exclude_flat_multi", "DepLogic.C15.exclude_flat_union"]}
 THEOREMS: list[str] = []
 
 
@@ -430,6 +431,10 @@ def factored_base(rng):
     """operands whose `|` factors out a common atom, so that the CNF candidate wins: a conjunction with a nested
     union, the shape parse_marker/& never produce on their own (seed C12b: exclude() shortcut on such markers)"""
     A, B, C = mk.atom(rng, "noextras"), mk.atom(rng), mk.atom(rng)
+    if rng.random() < 0.4:
+        # the removed variable only inside the nested union (seed C12d: a shallow scan for `extra` in without_extras)
+        v = rng.choice(["extra", "os_name", "sys_platform"])
+        B, C = f'{v} == "{rng.choice(["a", "foo", "linux"])}"', f'{v} == "{rng.choice(["b", "test", "win32"])}"'
     L = lambda x: E("leaf", x)  # noqa: E731
     k = rng.random()
     if k < 0.5:
@@ -518,6 +523,8 @@ def run_c12(run: core.Run, n: int) -> None:
                         break
             if name == "extra":
                 w = m.without_extras()
+                if "extra" in variables(w):
+                    run.fail(core.Failure("noextras-vars|" + e.show(), f"({base.show()}).without_extras() = {w!r} still mentions extra", rep))
                 if enc_marker(w) != enc_marker(r):
                     run.fail(core.Failure("noextras|" + e.show(), "without_extras() differs from exclude('extra')", rep))
     run.extra.update(time_budget_skips=stats["timeouts"], oracle_evaluations=stats["oracle"])
@@ -762,6 +769,10 @@ def replay(data: dict) -> bool:
             base = e.args[0].run()
             if e.kind == "exclude" and e.args[1] in variables(m):
                 return True
+            if e.kind == "exclude" and e.args[1] == "extra":
+                w = base.without_extras()
+                if "extra" in variables(w) or enc_marker(w) != enc_marker(m):
+                    return True
             if e.kind == "only" and not variables(m) <= set(e.args[1]):
                 return True
             import random
